@@ -10,7 +10,7 @@ from . import parser_common as PC
 
 TAG_KINDS = ["plain", "str", "num", "sl", "sl-scalar", "values", "two"]
 POS_KINDS = ["s", "n", "sl"]
-EXT = "x-ext"
+EXT = "vnd.Example.x-Ext"  # capability strings are compared as written: the name has upper-case letters on purpose
 
 
 def definitions(tmax, rmax):
@@ -160,6 +160,14 @@ def def_task(t):
                           commands=(table, T.KNOWN_EXTENSIONS + (EXT,)), want_config=False)
             st.executions += 1
             viols.extend(E.oracle_c01(c))
+            # ... and a require naming the extension in another letter case names another extension
+            for wrong in (EXT.lower(), EXT.upper()):
+                c = E.execute(("require", '"%s"' % wrong, ";") + body + tuple(required_syms(pos)) + (("{", "}") if role == "test" else (";",)),
+                              commands=(table, T.KNOWN_EXTENSIONS + (EXT,)), want_config=False)
+                st.executions += 1
+                if c.obs.verdict == "ACC":
+                    viols.append(E.viol("C20", "accepts-invalid", c, "EXT_CMD", "custom", "require-in-other-case", None,
+                                        "use accepted although only %r was required (the command needs %r)" % (wrong, EXT)))
         # an unregistered sibling name stays unknown
         w = ((("if", sibling) if role == "test" else (sibling,)) + tuple(required_syms(pos)) +
              (("{", "}") if role == "test" else (";",)))
